@@ -35,9 +35,9 @@ CHECKS = {
          "symbolic path enumeration of the registration switch; delegation-shape and method-set rules", "Method promotion forwards calls unchanged.", "DESIGN.md 3 C10"),
  "C11": ("Error routing on every path: each store to the error list is an empty make, an append of an error a dominating test shows non-nil, or a spread append guarded by the scan idiom; no adoption of caller slices; container methods tolerate nil receivers; Errors() is nil or non-empty (proved); every installed row shares the table's container; swallow-before-divert ordering; every errTaker handed to the callback invoker is non-nil by construction (recursively through parameters and callers); the invoker passes every non-nil result on.",
          "who-writes + dominance rules; nil-ness by construction through the call graph", "All writers of the list are in the module.", "DESIGN.md 3 C11"),
- "C12": ("Immutability of property-chain links after construction (every store to a link field initialises a link allocated in the same function) - which is exactly what makes copies of an owner independent; SetProperty installs the stripped remainder of the CURRENT chain for the SAME key or a fresh link on it, on every path; the strip's result pairs; lookup structure; single writer of the chain head; column handles are the stored pointers (no address into the growable slice escapes). The induction to map semantics is argued, not mechanised.",
+ "C12": ("Immutability of property-chain links after construction (every store to a link field initialises a link allocated in the same function) - which is exactly what makes copies of an owner independent; SetProperty installs the stripped remainder of the CURRENT chain for the SAME key or a fresh link on it, on every path; the strip's result pairs; lookup structure; single writer of the chain head; column handles are the stored pointers (no address into the growable slice escapes); no owner that lives behind a pointer is overwritten as a whole and no filled slot of the column list is refilled. The induction to map semantics is argued, not mechanised.",
          "who-writes/freshness analysis, must-store dataflow, alias-escape rule", "Interface == compares type and value.", "DESIGN.md 3 C12"),
- "C13": ("The registration function is executed symbolically for all 48 (owner type x target x time) combinations plus wrapper/unknown owners and compared with the documented matrix; the time->list mapping of registration and invocation must agree; every invocation site is classified by (role, time, loop depth) and each function's sequence in execution order must equal the documented add-time events / render nesting, unconditionally and once; targets handed to callbacks are pointers into the table's own structure; one callback pass per RenderTo before measuring and writing.",
+ "C13": ("The registration function is executed symbolically for all 48 (owner type x target x time) combinations plus wrapper/unknown owners and compared with the documented matrix; the time->list mapping of registration and invocation must agree; every invocation site is classified by (role, time, loop depth) and each function's sequence in execution order must equal the documented add-time events / render nesting, unconditionally and once; targets handed to callbacks are pointers into the table's own structure; the loops around render-time callbacks visit every column (column 0 included), row and cell; every exported operation that links a cell-bearing row into a table announces it as AddRow does; a cell's column is read afresh from the table's list; one callback pass per RenderTo before measuring and writing.",
          "symbolic path enumeration; call-site sequence agreement in reverse post-order; live-object (address-root) rule", "Callbacks do not re-enter the building API.", "DESIGN.md 3 C13"),
  "C14": ("NECESSARY CONDITIONS ONLY (byte equality of successive renders is not decided): the interprocedural mod-set of every RenderTo/Render is inside a short allowlist (cell measurement properties, cached template, error list), measurement keys are private pointers of unexported types, built-in callbacks recompute from the cell and never read back, and fail only when not given a cell.",
          "interprocedural effects/mod-set analysis with parametric origins", "User callbacks are excluded, as the property allows.", "DESIGN.md 3 C14"),
@@ -47,13 +47,13 @@ CHECKS = {
          "Assumes fmt/io/html-template stop at the first writer error.", "DESIGN.md 2.3, 3 C15"),
  "C16": ("Interprocedural effect analysis (who writes what, with the origin of the written object) over the module, go-runewidth and uniseg: no package-level variable reachable from the public API is written after package initialisation unless under its own mutex, no goroutine is started, wrapper fields are written only through their receiver. "
          "Decides absence of shared mutable state between distinct tables, which is what race freedom for independent tables requires; does not decide byte-equality of concurrent outputs.",
-         "interprocedural effects/mod-set analysis over SSA + call graph; global-mutability classification; sync.Pool hand-over rule; immutability of structure shared by cell copies",
+         "interprocedural effects/mod-set analysis over SSA + call graph; global-mutability classification; sync.Pool hand-over and emptied-buffer rules; reader/writer lock modes; immutability of structure shared by cell copies",
          "Assumes the standard library is race-free for the uses made of it; callers sharing items between tables are out of scope.", "DESIGN.md 2.4, 3 C16"),
  "C17": ("Lock-held must-analysis over the CFG of every function touching the registry (every map access under the mutex on all paths, released on every exit, address never escapes), plus dataflow rules for the fail-closed chain Named -> SetDecorationNamed -> RenderTo and agreement of the D_* constants with init-time registrations and of the listing with the sorted key set. "
          "Decides data-race freedom of the registry for all schedules and the fail-closed behaviour; does not decide last-writer-wins (map semantics).",
          "lock-held forward must-dataflow on the CFG; dominance rules; table agreement",
          "Assumes sync.Mutex semantics and Go map semantics.", "DESIGN.md 3 C17"),
- "C18": ("SMALL PART ONLY (the numeric clauses over all strings are not decided): the three LongestLine* functions are structural siblings (split with Lines, measure only with their own String*, running maximum guarded by '>' over a loop visiting every line); one newline splitter and one cell measure shared by Cell, layout and emit; the height formula and Lines agree on separator and trailing rule (shape rule); the measuring callback's index obligations are discharged.",
+ "C18": ("SMALL PART ONLY (the numeric clauses over all strings are not decided): the three LongestLine* functions are structural siblings (split with Lines, measure only with their own String*, running maximum guarded by '>' over a loop visiting every line); one newline splitter and one cell measure shared by Cell, layout and emit; the height formula and Lines agree on separator and trailing rule (shape rule); Lines uses only library calls that lose nothing but the separator; every store of a cell's width is 0 (only for a text found empty), the widest line of the text or the item's own declaration; the measuring callback's index obligations are discharged.",
          "sibling-agreement rules on SSA; shape comparison of two formulas; index-safety obligations", "strings.Split/Count/HasSuffix as documented.", "DESIGN.md 3 C18"),
  "C19": ("STATIC AGREEMENT ONLY (run-time registry contents are not decided): listing constants are cases of the style switch and every renderer sub-package is listed, on top of the registry's names, sorted last; the switch tag is ToLower(Split(style, \".\")[0]) and each sub-package case returns that package's Wrap(t); the texttable and default arms name the decoration by the un-lowered section 1 (only when present) / section 0; built-in names contain no dot and collide with no case.",
          "table-agreement rules between the listing, the dispatch switch and the decoration constants", "strings.Split/ToLower/sort.Strings as documented.", "DESIGN.md 3 C19"),
